@@ -4,13 +4,13 @@ CONSTANTS
   FunRels = {"actionnext", "beads", "xrefprev", "xrefstmprev", "xrefstm", "extends", "length", "refchain", "refcontents", "refkids", "refannots", "pageparent", "fieldparent", "colorspace", "function", "smask", "irt"}
   MaxN = 3
   SymN = 3
-  GraphMod = 2
+  GraphMod = 3
   Decors = {"none", "dangling", "wrong", "null"}
   DecorMod = 4
-  FunMod = 2
+  FunMod = 3
   OutlineNs = {1, 2}
-  Outline1Mod = 3
-  OutlineMod = 24
+  Outline1Mod = 6
+  OutlineMod = 48
   DepthRels = {"pagetree", "fields", "structtree", "nametree", "numtree", "xobjects", "actionnext", "beads", "xrefprev", "extends", "length", "refchain", "pageparent", "fieldparent", "colorspace", "function", "smask", "irt", "outlinefirst", "outlinenext"}
   SynKinds = {"array", "dict", "mixed", "parens", "contentarray", "contentq", "contentdict"}
   Limit = 100
@@ -21,7 +21,7 @@ CONSTANTS
   MutK = 12
   PdfBases = {"classic", "objstm", "encrypted"}
   PdfK = 2
-  PdfMod = 6
+  PdfMod = 10
   TruncK = 12
   Seed = 1
   Emit = TRUE
